@@ -131,11 +131,13 @@ fn root_goal() -> UCanonical<InEnvironment<Goal<VerifIr>>> {
 fn make_solution_contract(len: usize) {
     let db = MockDb;
     let ops = SlgContextOps::new(&db, 10, None);
-    let goal = root_goal();
+    // (never dropped: the recursive drop glue of Goal/Ty is expensive for CBMC)
+    let goal = core::mem::ManuallyDrop::new(root_goal());
     let mut stream = MockStream { items: [kani::any(), kani::any(), kani::any(), kani::any()], len, pos: 0, quantum_seen: false };
     let first = stream.at(0);
     let second = stream.at(1);
-    let result = ops.make_solution(&goal, &mut stream, || true);
+    let result_md = core::mem::ManuallyDrop::new(ops.make_solution(&goal, &mut stream, || true));
+    let result: &Option<Solution<VerifIr>> = &result_md;
 
     kani::cover!(result.is_none());
     kani::cover!(matches!(result, Some(Solution::Unique(_))));
@@ -150,7 +152,7 @@ fn make_solution_contract(len: usize) {
         unique == (first == Item::Answer { ambiguous: false } && second == Item::NoMore),
         "Unique <=> exactly one unconditional answer"
     );
-    if let Some(Solution::Unique(s)) = &result {
+    if let Some(Solution::Unique(s)) = result {
         assert!(*s == empty_subst(), "Unique carries the stream's answer unchanged");
     }
     // (c)
@@ -167,9 +169,30 @@ fn make_solution_contract(len: usize) {
     }
 }
 
+/// havoc stub for the anti-unifier entry point (never reached with empty
+/// substitutions, but CBMC would still have to encode it)
+fn merge_stub<I: Interner>(
+    _interner: I,
+    _root_goal: &Canonical<InEnvironment<Goal<I>>>,
+    guidance: Canonical<Substitution<I>>,
+    _answer: &Canonical<ConstrainedSubst<I>>,
+) -> Canonical<Substitution<I>> {
+    guidance
+}
+
 #[kani::proof]
 #[kani::unwind(6)]
 #[kani::stub(SlgContextOps::identity_constrained_subst, identity_stub)]
+#[kani::stub(merge_into_guidance, merge_stub)]
+fn k12_make_solution_len2() {
+    let len: usize = kani::any_where(|l: &usize| *l <= 2);
+    make_solution_contract(len);
+}
+
+#[kani::proof]
+#[kani::unwind(6)]
+#[kani::stub(SlgContextOps::identity_constrained_subst, identity_stub)]
+#[kani::stub(merge_into_guidance, merge_stub)]
 fn k12_make_solution_len3() {
     let len: usize = kani::any_where(|l: &usize| *l <= 3);
     make_solution_contract(len);
